@@ -6,7 +6,7 @@ open Lean Shelx.J
 /-
   C11 driver.
     {"p":"C11","op":"table"}                       -> the tabulated settings [{name, N, S, order}]
-    {"p":"C11","op":"expand","N":n,"S":[op…]}      -> {model: [op…] | null, spec: [op…], valid, mult}
+    {"p":"C11","op":"expand","N":n|null,"params":[…]?,"S":[op…]} -> {model: [op…] | null, spec: [op…], valid, mult, N}
   An operator travels as {"m":[9 ints, row by row],"t":[[num,den],[num,den],[num,den]]} (exact).
 -/
 namespace Shelx.Drv.C11
@@ -37,13 +37,19 @@ def handle (j : Json) : Except String Json := do
     return Json.arr (settings.map fun s =>
       Json.mkObj [("name", Json.str s.name), ("N", ofInt s.N), ("S", ofOps s.S), ("order", ofNat s.order)]).toArray
   | "expand" =>
-    let n ← intField j "N"
+    -- "N": the number written on the LATT line (null when it is omitted); "params": every numerical parameter of
+    -- the line as the code sees it (optional; default: [N] or [])
+    let nopt : Option Int ← match fieldOpt j "N" with | none => pure none | some v => (some <$> int v)
+    let n := lattOf nopt
+    let params : List Rat ← match fieldOpt j "params" with
+      | none => pure (match nopt with | none => [] | some k => [(k : Rat)])
+      | some v => rats v
     let s ← (← arrField j "S").mapM opOf
-    let model := match expand n s with | none => Json.null | some l => ofOps l
+    let model := match expandLine params s with | none => Json.null | some l => ofOps l
     let spec := fullGroup n s
     return Json.mkObj [("model", model), ("spec", ofOps spec),
                        ("valid", Json.bool (validB n s)),
-                       ("mult", ofNat (mult n))]
+                       ("mult", ofNat (mult n)), ("N", ofInt n)]
   | _ => err s!"C11: unknown op {op}"
 
 end Shelx.Drv.C11
